@@ -4,6 +4,30 @@ import vlib, pagecommon
 from vlib import log
 
 
+def repo_test_traces(v, wd):
+    import repotrace, filecommon
+    raw = os.path.join(wd, "repotests.raw.ndjson")
+    if os.path.exists(raw):
+        os.remove(raw)
+    env = {"RUSTFLAGS": "--cfg e57_verif --check-cfg cfg(e57_verif)", "E57_VERIF_TRACE": raw,
+           "CARGO_TARGET_DIR": os.path.join(vlib.HARNESS, "target_repotests")}
+    rc, out = vlib.sh("cargo test --offline --no-fail-fast", cwd="/repo", env=env, timeout=1800)
+    passed = sum(int(l.split()[3]) for l in out.splitlines() if l.startswith("test result:"))
+    failed = sum(int(l.split()[5]) for l in out.splitlines() if l.startswith("test result:"))
+    if not os.path.exists(raw):
+        raise vlib.ToolError("the repository's tests produced no trace (hooks missing or build failed)\n" + out[-2000:])
+    conv = os.path.join(wd, "repotests.ndjson")
+    st = repotrace.convert(raw, conv)
+    os.remove(raw)
+    runs = filecommon.split_runs(conv)
+    os.remove(conv)
+    filecommon.validate_runs(v, wd, runs, "repotests", module="Trace_Page", focus=("C11",), jobs=8, batch_events=500)
+    st.update(tests_passed=passed, tests_failed=failed)
+    v.cov["repository_test_traces"] = st
+    log(f"[C11] (C) repository test-suite with emitters on: {passed} passed/{failed} failed; {st['writers']} page writers and {st['readers']} page readers, {st['events']} events validated by TLC")
+    return st
+
+
 def run(tier, seed, args):
     v = vlib.Verdict("C11", tier, seed, "model_checking")
     wd = vlib.workdir("C11")
@@ -44,6 +68,21 @@ def run(tier, seed, args):
                         e[k] = f"<{len(e[k])} bytes>"
             v.sample({"trace_prefix": evs})
         os.remove(tp)
+    # (C) traces of the repository's own test-suite: the guarded emitters in PagedWriter/PagedReader record every
+    # call of every page writer/reader instance the 85 tests create; TLC validates each instance against PageSpec
+    rt = repo_test_traces(v, wd)
+    if deep:
+        # unbounded complement to the translation clause: TLAPS proves the position arithmetic for all naturals
+        import shutil, re
+        pd = os.path.join(wd, "proofs"); os.makedirs(pd, exist_ok=True)
+        shutil.copy(os.path.join(vlib.SPEC, "proofs", "PosLemmas.tla"), pd)
+        rc, out = vlib.sh("timeout 1200 tlapm --cleanfp --threads 6 PosLemmas.tla", cwd=pd, timeout=1300)
+        m = re.search(r"All (\d+) obligations proved", out)
+        if not m:
+            raise vlib.ToolError("TLAPS did not discharge the position lemmas:\n" + out[-1500:])
+        v.cov["tlaps"] = {"module": "spec/proofs/PosLemmas.tla", "obligations": int(m.group(1)), "discharged": int(m.group(1)),
+                          "theorems": ["InPayload", "RoundTrip", "Onto", "Monotone", "Align4", "SizeCovers"]}
+        log(f"[C11] TLAPS: all {m.group(1)} obligations of PosLemmas proved")
     v.add(exhaustive=True,
           rule="every edge of the bounded PageSpec model (depth-bounded histories over boundary-focused sizes/positions at the real page size) is one case; "
                "distinct = distinct model states reached; plus randomised histories validated event by event by TLC",
